@@ -41,9 +41,9 @@ TIERS = {
     'quick': dict(
         exhaustive=[dict(min_n=1, max_n=3, max_groups=1, max_reps=3,
                          timing=True)],
-        sampled=[(3, 1500), (4, 2500), (5, 1200)],
-        abstract_cap=2500, programs=24, stub_times=[1, 2, 3, 5],
-        runmany=6, shards=6,
+        sampled=[(3, 700), (4, 1300), (5, 600)],
+        abstract_cap=2000, programs=20, stub_times=[1, 2, 3, 5],
+        runmany=5, shards=5,
         enum_cfg='MCConcertinaEnum.cfg',
         enum_args=dict(min_n=1, max_n=3, min_reps=1, max_reps=2, max_groups=1,
                        max_len=2, timing=True)),
@@ -52,8 +52,8 @@ TIERS = {
                          timing=True),
                     dict(min_n=4, max_n=4, max_groups=1, max_reps=2,
                          timing=False)],
-        sampled=[(4, 40000), (5, 25000)],
-        abstract_cap=30000, programs=420, stub_times=[1, 2, 3, 4, 5, 7, 9],
+        sampled=[(4, 15000), (5, 10000)],
+        abstract_cap=20000, programs=400, stub_times=[1, 2, 3, 4, 5, 7, 9],
         runmany=60, shards=14,
         enum_cfg='MCConcertinaEnum_thorough.cfg',
         enum_args=dict(min_n=1, max_n=3, min_reps=1, max_reps=2, max_groups=2,
